@@ -4,6 +4,7 @@ package main
 
 import (
 	"fmt"
+	"sort"
 	"go/ast"
 	"go/token"
 	"go/types"
@@ -39,18 +40,45 @@ ASSUMPTION: 64-bit platform (GOARCH with 64-bit int, e.g. amd64/arm64).  Semanti
 // parameters do not overlap: then a parameter written by index is accepted as an output buffer even when another
 // parameter has the same element type.  The assumption is stated in the generated doc comment; whoever asks for it
 // has to justify it (gen.go: checkFreshDst does so at the call sites).
-func translateLoopFuncs(p *pkg, names ...string) string {
+func translateLoopFuncs(p *pkg, names ...string) string { return translateLoopFuncsNS(p, "", names...) }
+
+// translateLoopFuncsNS is translateLoopFuncs for functions that are generated inside `namespace ns` (relative to the
+// namespace of the generated file) and may be called from functions translated later, also of other packages.
+func translateLoopFuncsNS(p *pkg, ns string, names ...string) string {
 	set := &loopSet{p: p, tp: typeCheck(p), done: map[string]bool{}, flowFns: map[string]bool{}, all: map[string]bool{},
-		varText: map[*types.Var]string{}, disjoint: map[string]bool{}}
+		varText: map[*types.Var]string{}, disjoint: map[string]bool{}, nowrap: map[string]bool{}, ns: ns}
+	names = append([]string{}, names...)
+	abstract := map[string][]string{}
 	for i, n := range names {
-		if m := strings.TrimSuffix(n, "!disjoint"); m != n {
-			names[i], n = m, m
-			set.disjoint[n] = true
+		// name!flag!flag…: disjoint (see above); nowrap: loops `for i := a; i < b; i += k` are translated under the
+		// ASSUMPTION that i += k does not wrap around (the tie proves it from the function's own guards)
+		parts := strings.Split(n, "!")
+		names[i], n = parts[0], parts[0]
+		for _, f := range parts[1:] {
+			switch f {
+			case "disjoint":
+				set.disjoint[n] = true
+			case "nowrap":
+				set.nowrap[n] = true
+			case "abstract":
+				die("translate %s: !abstract needs the fields it reads and assigns: !abstract=f+g", n)
+			default:
+				if fs := strings.TrimPrefix(f, "abstract="); fs != f {
+					abstract[n] = strings.Split(fs, "+")
+					continue
+				}
+				die("translate %s: unknown flag !%s", n, f)
+			}
 		}
 		set.all[n] = true
+		set.all[strings.ReplaceAll(n, ".", "_")] = true
 	}
 	var fns []string
 	for _, n := range names {
+		if fs, ok := abstract[n]; ok {
+			set.registerAbstract(n, fs)
+			continue
+		}
 		fns = append(fns, set.translate(n))
 		set.done[n] = true
 	}
@@ -61,16 +89,22 @@ func translateLoopFuncs(p *pkg, names ...string) string {
 	for _, f := range fns {
 		b.WriteString(f)
 	}
+	if ns != "" {
+		return "namespace " + ns + "\n" + b.String() + "end " + ns + "\n"
+	}
 	return b.String()
 }
 
 func (s *loopSet) translate(name string) string {
-	fd := s.p.funcDecl(name)
-	t := &loopTr{set: s, p: s.p, info: s.tp.info, fd: fd, vars: map[types.Object]string{}, params: map[types.Object]bool{},
-		safe: map[*ast.IndexExpr]bool{}, pairBuf: map[types.Object]bool{}, synthCond: map[*ast.IfStmt]string{}}
-	if fd.Recv != nil || fd.Type.TypeParams != nil || fd.Body == nil {
-		t.fail(fd, "methods, generic functions and bodyless functions are not supported")
+	fd := s.p.method(name) // "f" or "T.m"
+	leanName := strings.ReplaceAll(name, ".", "_")
+	t := &loopTr{name: name, set: s, p: s.p, info: s.tp.info, fd: fd, vars: map[types.Object]string{}, params: map[types.Object]bool{},
+		safe: map[*ast.IndexExpr]bool{}, pairBuf: map[types.Object]bool{}, synthCond: map[*ast.IfStmt]string{},
+		tagged: map[types.Object]int{}, restBuf: map[types.Object]bool{}, absDeps: map[string]string{}}
+	if fd.Type.TypeParams != nil || fd.Body == nil {
+		t.fail(fd, "generic functions and bodyless functions are not supported")
 	}
+	t.setupRecv()
 	ast.Inspect(fd.Body, func(n ast.Node) bool {
 		if _, ok := n.(*ast.FuncLit); ok {
 			t.fail(n, "closures are not supported")
@@ -105,13 +139,28 @@ func (s *loopSet) translate(name string) string {
 				t.fail(id, "two variables called %s in nested scopes (shadowing is not supported)", id.Name)
 			}
 		}
-		if leanReserved[id.Name] || strings.HasPrefix(id.Name, "st_") || strings.HasPrefix(id.Name, "sw_") || strings.HasPrefix(id.Name, "var_") || s.all[id.Name] || id.Name == "nil" {
+		if o == t.recv {
+			return
+		}
+		if leanReserved[id.Name] || strings.HasPrefix(id.Name, "st_") || strings.HasPrefix(id.Name, "sw_") || strings.HasPrefix(id.Name, "var_") || s.all[id.Name] || id.Name == "nil" ||
+			strings.HasSuffix(id.Name, "_rest") {
 			t.fail(id, "variable name %s clashes with a name used by the generated Lean text", id.Name)
+		}
+		for _, f := range t.fields {
+			if t.vars[f] == id.Name {
+				t.fail(id, "variable name %s clashes with the name of a receiver field in the generated Lean text", id.Name)
+			}
 		}
 		byName[id.Name] = append(byName[id.Name], o)
 		t.vars[o] = id.Name
 	}
 	var params []string
+	for _, f := range t.fields {
+		if t.ctor {
+			break // the fields of a constructed struct are not parameters
+		}
+		params = append(params, fmt.Sprintf("(%s : %s)", t.vars[f], t.kindOf(f.Type(), fd).lean()))
+	}
 	for _, f := range fd.Type.Params.List {
 		if len(f.Names) == 0 {
 			t.fail(f, "unnamed parameter")
@@ -123,20 +172,22 @@ func (s *loopSet) translate(name string) string {
 			addVar(id)
 			o := t.info.Defs[id]
 			t.params[o] = true
+			if isPlainArray(o.Type()) || t.isBuilder(o) {
+				t.fail(id, "type %s is outside the translated subset (array parameters are copies; not supported)", o.Type())
+			}
 			params = append(params, fmt.Sprintf("(%s : %s)", id.Name, t.kindOf(o.Type(), id).lean()))
 		}
 	}
-	if fd.Type.Results == nil {
-		t.fail(fd, "function without result")
-	}
 	var rt []string
-	for _, f := range fd.Type.Results.List {
-		if len(f.Names) != 0 {
-			t.fail(f, "named results are not supported")
+	if fd.Type.Results != nil && !t.ctor {
+		for _, f := range fd.Type.Results.List {
+			if len(f.Names) != 0 {
+				t.fail(f, "named results are not supported")
+			}
+			k := t.kindOf(t.typeOf(f.Type).Type, f)
+			t.rets = append(t.rets, k)
+			rt = append(rt, k.lean())
 		}
-		k := t.kindOf(t.typeOf(f.Type).Type, f)
-		t.rets = append(t.rets, k)
-		rt = append(rt, k.lean())
 	}
 	ast.Inspect(fd.Body, func(n ast.Node) bool {
 		if id, ok := n.(*ast.Ident); ok {
@@ -144,46 +195,97 @@ func (s *loopSet) translate(name string) string {
 		}
 		return true
 	})
+	for _, f := range t.fields {
+		if t.ctor || t.facts.plain[f] > 0 || t.facts.indexed[f] {
+			t.fieldOuts = append(t.fieldOuts, f)
+			rt = append(rt, t.kindOf(f.Type(), fd).lean())
+		}
+	}
 	t.findOutBufs()
 	for _, o := range t.outBufs {
 		rt = append(rt, t.kindOf(o.Type(), fd).lean())
 	}
+	if len(rt) == 0 {
+		t.fail(fd, "function without result and without effect on a field or an output buffer")
+	}
 	t.retTy = strings.Join(rt, " × ")
 	t.classify()
 	t.flowFn = t.needsFlow(fd.Body, false) || !t.pureTailOK(fd.Body.List)
-	body := t.block(fd.Body.List, "  ", blockMode{flow: t.flowFn, tail: true}, func(string) string {
-		t.fail(fd, "function falls off the end")
-		return ""
+	body := t.block(fd.Body.List, "  ", blockMode{flow: t.flowFn, tail: true}, func(ind string) string {
+		if len(t.rets) != 0 {
+			t.fail(fd, "function falls off the end")
+		}
+		if t.flowFn {
+			return ind + "Go.Flow.done " + atom(t.retValue(fd, nil))
+		}
+		return ind + t.retValue(fd, nil)
 	})
 	for i := len(t.outBufs) - 1; i >= 0; i-- {
-		if o := t.outBufs[i]; t.pairBuf[o] {
+		o := t.outBufs[i]
+		if t.pairBuf[o] {
 			lt := t.kindOf(o.Type(), fd).lean()
 			body = fmt.Sprintf("  let %s : %s := (([] : %s), %s)\n%s", t.vars[o], t.objType(o), lt, t.vars[o], body)
 		}
+		if tag, ok := t.tagged[o]; ok {
+			body = fmt.Sprintf("  let %s : %s := (%d, %s)\n%s", t.vars[o], t.objType(o), tag, t.vars[o], body)
+		}
 	}
 	doc := fmt.Sprintf("translated (loops) from `%s` in %s", name, rel(s.p.dir))
+	if t.ctor {
+		doc += "; a constructor: the result is the tuple of the fields of the struct it builds and returns"
+	} else if len(t.fields) > 0 {
+		var ns []string
+		for _, f := range t.fields {
+			ns = append(ns, "`"+t.vars[f]+"`")
+		}
+		doc += "; the receiver is represented by its fields " + strings.Join(ns, ", ")
+		if len(t.fieldOuts) > 0 {
+			ns = nil
+			for _, f := range t.fieldOuts {
+				ns = append(ns, "`"+t.vars[f]+"`")
+			}
+			doc += "; the fields it assigns (" + strings.Join(ns, ", ") + ") are returned after the declared results: their value on return"
+		}
+	}
 	if len(t.outBufs) > 0 {
 		var ns []string
 		for _, o := range t.outBufs {
 			ns = append(ns, "`"+t.vars[o]+"`")
 		}
 		doc += "; the function writes into the array of " + strings.Join(ns, ", ") + ": the last component" +
-			map[bool]string{true: "s", false: ""}[len(ns) > 1] + " of the result is the content of that array (the whole slice that was passed) on return"
+			map[bool]string{true: "s", false: ""}[len(ns) > 1] + " of the result is the content of that array (the whole slice / array that was passed) on return"
+	}
+	if t.assumedNoWrap {
+		doc += "; ASSUMPTION (not checked here): in its loops `for i := a; i < b; i += k` the addition does not wrap around before the condition fails"
 	}
 	if len(t.mayOverlap) > 0 {
 		doc += "; ASSUMPTION (not checked here): the array of " + strings.Join(t.mayOverlap, ", ") + " does not overlap the arrays of the other parameters"
 	}
+	if len(t.absDeps) > 0 {
+		var ns []string
+		for n := range t.absDeps {
+			ns = append(ns, n)
+		}
+		sort.Strings(ns)
+		var ps []string
+		for _, n := range ns {
+			ps = append(ps, fmt.Sprintf("(%s : %s)", n, t.absDeps[n]))
+		}
+		params = append(ps, params...)
+		doc += "; PARAMETER " + strings.Join(ns, ", ") + ": the method of that name, which is not translated (its fields in, its fields out, none = panic)"
+	}
+	t.register(leanName)
 	if t.flowFn {
 		doc += "; none = run-time panic"
 		s.flowFns[name] = true
 		return fmt.Sprintf("/-- %s -/\ndef %s %s : Option (%s) :=\n  Go.Flow.result (\n%s)\n",
-			doc, name, strings.Join(params, " "), t.retTy, body)
+			doc, leanName, strings.Join(params, " "), t.retTy, body)
 	}
-	if len(t.outBufs) > 0 {
+	if len(t.outBufs) > 0 || len(t.fields) > 0 {
 		s.flowFns[name] = true
 	}
 	return fmt.Sprintf("/-- %s -/\ndef %s %s : %s :=\n%s\n",
-		doc, name, strings.Join(params, " "), t.retTy, body)
+		doc, leanName, strings.Join(params, " "), t.retTy, body)
 }
 
 // ---------------------------------------------------------------- statements
@@ -241,6 +343,9 @@ func (t *loopTr) objType(o types.Object) string {
 	if t.pairBuf[o] {
 		return "(" + k + " × " + k + ")"
 	}
+	if t.isTagged(o) {
+		return "(Nat × " + k + ")"
+	}
 	return k
 }
 
@@ -291,11 +396,26 @@ func (t *loopTr) block(list []ast.Stmt, ind string, m blockMode, k func(ind stri
 	case *ast.BlockStmt:
 		return t.block(append(append([]ast.Stmt{}, s.List...), list[1:]...), ind, m, k)
 	case *ast.ReturnStmt:
+		if hpre, hpost := t.hoistCalls(ind, m, nil, s); hpre != "" {
+			out := t.block(list, ind, m, k)
+			return hpre + out + hpost
+		}
 		if !m.flow && !m.tail {
 			t.fail(s, "return inside a loop or a conditional that is not in tail position")
 		}
 		if len(list) > 1 {
 			t.fail(list[1], "statement after return")
+		}
+		if t.ctor {
+			// `return e`: the tuple of the fields
+			if len(s.Results) != 1 || t.varOf(s.Results[0]) != t.recv {
+				t.fail(s, "a constructor must return the struct it built")
+			}
+			val := t.retValue(s, nil)
+			if m.flow {
+				return ind + "Go.Flow.done " + atom(val)
+			}
+			return ind + val
 		}
 		if len(s.Results) != len(t.rets) {
 			t.fail(s, "return arity")
@@ -304,34 +424,83 @@ func (t *loopTr) block(list []ast.Stmt, ind string, m blockMode, k func(ind stri
 		for i, r := range s.Results {
 			if id, ok := unparen(r).(*ast.Ident); ok {
 				if o := t.info.Uses[id]; o != nil && t.rets[i].isSlice() {
-					if _, local := t.vars[o]; !local || t.params[o] {
+					if _, isNil := o.(*types.Nil); isNil {
+						// below: a nil slice is []
+					} else if _, local := t.vars[o]; !local || t.params[o] {
 						t.fail(r, "returning `%s` would alias a parameter or package variable", id.Name)
 					}
 				}
 			}
+			if id, ok := unparen(r).(*ast.Ident); ok && t.rets[i].isSlice() {
+				if _, isNil := t.info.Uses[id].(*types.Nil); isNil {
+					vals = append(vals, "([] : "+t.rets[i].lean()+")") // a nil slice and an empty slice are both []
+					continue
+				}
+			}
+			if se, ok := unparen(r).(*ast.SliceExpr); ok && t.rets[i].isSlice() {
+				// `return x[:hi]` of a local slice this function made: its prefix (x is dead afterwards)
+				id, isId := unparen(se.X).(*ast.Ident)
+				if !isId || se.Low != nil || se.High == nil || se.Slice3 {
+					t.fail(r, "returning a slice expression: only `x[:hi]` of a local slice created by make is supported")
+				}
+				o := t.info.Uses[id]
+				f := t.facts
+				if _, local := t.vars[o]; !local || t.params[o] || len(f.defs[o]) != 1 || f.plain[o] != 0 || !t.isMake(f.defs[o][0]) {
+					t.fail(r, "returning a slice expression: only `x[:hi]` of a local slice created by make is supported")
+				}
+				v, vk := t.argValue(r)
+				if vk != t.rets[i] {
+					t.fail(r, "return type")
+				}
+				vals = append(vals, v)
+				continue
+			}
 			v, vk := t.expr(r)
-			if vk != t.rets[i] {
+			if vk != t.rets[i] && !(t.rets[i] == kString && vk == kBytes && t.isBuilderString(r)) {
 				t.fail(r, "return type")
 			}
 			vals = append(vals, v)
 		}
-		for _, o := range t.outBufs {
-			if t.pairBuf[o] {
-				vals = append(vals, "("+t.vars[o]+".1 ++ "+t.vars[o]+".2)")
-			} else {
-				vals = append(vals, t.vars[o])
-			}
-		}
-		val := vals[0]
-		if len(vals) > 1 {
-			val = "(" + strings.Join(vals, ", ") + ")"
-		}
+		val := t.retValue(s, vals)
 		if m.flow {
 			return t.guards(s, ind, m) + ind + "Go.Flow.done " + atom(val)
 		}
 		t.guards(s, ind, m)
 		return ind + val
-	case *ast.AssignStmt, *ast.IncDecStmt, *ast.DeclStmt:
+	case *ast.AssignStmt, *ast.IncDecStmt, *ast.DeclStmt, *ast.ExprStmt:
+		if as, ok := s.(*ast.AssignStmt); ok && t.ctor && as == t.ctorDef {
+			out := rest(ind)
+			bs := t.ctorInit()
+			for i := len(bs) - 1; i >= 0; i-- {
+				out = let(ind, bs[i].name, bs[i].leanType(), bs[i].val, out)
+			}
+			return out
+		}
+		if c, sig, lhs, tok := t.flowCallOf(s); c != nil {
+			var argNodes []ast.Node
+			for _, a := range c.Args {
+				argNodes = append(argNodes, a)
+			}
+			hpre, hpost := t.hoistCalls(ind, m, c, argNodes...)
+			return hpre + t.flowCall(s, c, sig, lhs, tok, ind, m, rest) + hpost
+		}
+		if hpre, hpost := t.hoistCalls(ind, m, nil, s); hpre != "" {
+			return hpre + t.block(list, ind, m, k) + hpost
+		}
+		if es, ok := s.(*ast.ExprStmt); ok && t.isPanicCall(es.X) {
+			if !m.flow {
+				t.fail(s, "internal error: panic outside a flow block")
+			}
+			c := unparen(es.X).(*ast.CallExpr)
+			for _, a := range c.Args {
+				if tv, ok := t.info.Types[a]; ok && tv.Value == nil {
+					if _, isId := unparen(a).(*ast.Ident); !isId {
+						t.fail(s, "panic with an argument that is not a constant or a variable")
+					}
+				}
+			}
+			return t.guards(s, ind, m) + ind + "Go.Flow.panic"
+		}
 		bs := t.simple(s)
 		if len(t.checks) != 0 {
 			t.fail(s, "internal error: unattributed bounds checks")
@@ -363,6 +532,11 @@ func (t *loopTr) block(list []ast.Stmt, ind string, m blockMode, k func(ind stri
 	case *ast.SwitchStmt:
 		return t.switchStmt(s, list[1:], ind, m, k)
 	case *ast.IfStmt:
+		if s.Init == nil {
+			if hpre, hpost := t.hoistCalls(ind, m, nil, s.Cond); hpre != "" {
+				return hpre + t.ifStmt(s, ind, m, rest) + hpost
+			}
+		}
 		return t.ifStmt(s, ind, m, rest)
 	case *ast.RangeStmt:
 		return t.rangeStmt(s, ind, m, rest)
@@ -396,7 +570,7 @@ func (t *loopTr) localVar(id *ast.Ident) (types.Object, string, lkind) {
 	if !ok || id.Name == "_" {
 		t.fail(id, "assignment to %s, which is not a local variable", id.Name)
 	}
-	if _, isArr := arrayLen(o.Type()); isArr {
+	if isArrayPtr(o.Type()) {
 		t.fail(id, "assignment to the array pointer %s", id.Name)
 	}
 	return o, name, t.kindOf(o.Type(), id)
@@ -409,12 +583,18 @@ func (t *loopTr) simple(st ast.Stmt) []binding {
 		return []binding{{name: name, kind: k, val: val, checks: t.takeChecks()}}
 	}
 	switch s := st.(type) {
+	case *ast.ExprStmt:
+		if c, ok := unparen(s.X).(*ast.CallExpr); ok {
+			if o, m := t.builderCall(c); o != nil {
+				return t.builderStmt(s, o, m)
+			}
+		}
+		return t.copyStmt(s)
 	case *ast.IncDecStmt:
-		id, ok := unparen(s.X).(*ast.Ident)
-		if !ok {
+		if _, isIdx := unparen(s.X).(*ast.IndexExpr); isIdx {
 			t.fail(s, "unsupported operand of %s", s.Tok)
 		}
-		_, name, k := t.localVar(id)
+		_, name, k := t.scalarTarget(s.X)
 		if !k.isNum() {
 			t.fail(s, "%s on %s", s.Tok, k.lean())
 		}
@@ -451,6 +631,9 @@ func (t *loopTr) simple(st ast.Stmt) []binding {
 					val = "false"
 				case k == kErr, k == kErrAt:
 					val = "none"
+				case isPlainArray(t.objOf(id).Type()):
+					n, _ := arrayLen(t.objOf(id).Type())
+					val = fmt.Sprintf("(List.replicate %d 0#%d)", n, k.elem().width())
 				default:
 					val = "([] : " + k.lean() + ")"
 				}
@@ -460,12 +643,34 @@ func (t *loopTr) simple(st ast.Stmt) []binding {
 		return bs
 	case *ast.AssignStmt:
 		if len(s.Lhs) != 1 || len(s.Rhs) != 1 {
-			t.fail(s, "multiple assignment is not supported")
+			return t.multiAssign(s)
 		}
 		if o, lo := t.resliceOf(s); o != nil {
 			return t.reslice(s, o, lo)
 		}
+		if o, hi := t.prefixResliceOf(s); o != nil {
+			return t.prefixReslice(s, o, hi)
+		}
 		switch l := unparen(s.Lhs[0]).(type) {
+		case *ast.SelectorExpr:
+			_, name, k := t.scalarTarget(l)
+			if s.Tok == token.ASSIGN {
+				v, vk := t.expr(s.Rhs[0])
+				if vk != k {
+					t.fail(s, "assignment of %s to %s", vk.lean(), k.lean())
+				}
+				return bind(name, k, v)
+			}
+			op, ok := assignOps[s.Tok]
+			if !ok {
+				t.fail(s, "unsupported assignment operator %s", s.Tok)
+			}
+			if op == token.SHL || op == token.SHR {
+				return bind(name, k, t.shift(s, op, name, k, s.Rhs[0]))
+			}
+			b, bk := t.expr(s.Rhs[0])
+			v, _ := t.binop(s, op, name, k, b, bk)
+			return bind(name, k, v)
 		case *ast.Ident:
 			if l.Name == "_" && s.Tok == token.ASSIGN {
 				// `_ = x[c]`: only the bounds check remains
@@ -508,26 +713,9 @@ func (t *loopTr) simple(st ast.Stmt) []binding {
 			return bind(name, k, v)
 		case *ast.IndexExpr:
 			if s.Tok != token.ASSIGN {
-				t.fail(s, "only plain assignment to an element is supported")
+				return t.opAssignIndex(s, l)
 			}
-			a, i, ak, o := t.index(l)
-			f := t.facts
-			name, local := t.vars[o]
-			switch {
-			case t.isOutBuf(o):
-			case !local || t.params[o] || len(f.defs[o]) != 1 || f.plain[o] != 0 || !t.isMake(f.defs[o][0]):
-				t.fail(s, "index assignment to `%s`, which is not a local slice created once by make in this function (aliasing-sensitive)", name)
-			}
-			v, vk := t.expr(s.Rhs[0])
-			if vk != ak.elem() {
-				t.fail(s, "element type")
-			}
-			if t.pairBuf[o] {
-				b := bind(name, ak, fmt.Sprintf("(%s.1, %s.set %s %s)", name, a, i, v))
-				b[0].ty = t.objType(o)
-				return b
-			}
-			return bind(name, ak, fmt.Sprintf("(%s.set %s %s)", a, i, v))
+			return []binding{t.assignIndex(s, l, func(string, lkind) (string, lkind) { return t.expr(s.Rhs[0]) })}
 		}
 	}
 	t.fail(st, "unsupported statement %s", t.p.src(st))
@@ -562,8 +750,16 @@ func endsWithJump(b *ast.BlockStmt) bool {
 		return true
 	}
 	if n := len(b.List); n > 0 {
-		br, ok := b.List[n-1].(*ast.BranchStmt)
-		return ok && br.Tok == token.BREAK && br.Label == nil
+		if br, ok := b.List[n-1].(*ast.BranchStmt); ok {
+			return br.Tok == token.BREAK && br.Label == nil
+		}
+		if es, ok := b.List[n-1].(*ast.ExprStmt); ok {
+			if c, ok := unparen(es.X).(*ast.CallExpr); ok {
+				if id, ok := unparen(c.Fun).(*ast.Ident); ok && id.Name == "panic" {
+					return true
+				}
+			}
+		}
 	}
 	return false
 }
@@ -714,6 +910,9 @@ func (t *loopTr) rangeStmt(s *ast.RangeStmt, ind string, m blockMode, rest func(
 		list = "((List.range " + xs + ".length).map (BitVec.ofNat 64))"
 	case xk == kInt && val == nil:
 		list = "((List.range " + xs + ".toInt.toNat).map (BitVec.ofNat 64))"
+	case xk == kString && val == nil:
+		// the byte offsets of the rune starts (Go decodes UTF-8 while ranging over a string)
+		list = "(Go.runeStarts " + xs + ")"
 	default:
 		t.fail(s, "range over %s is not supported", t.typeOf(s.X).Type)
 	}
